@@ -319,8 +319,9 @@ EXPLANATION["C15"] = ("Partial: the GLUE of the signature opcodes, one interpret
                       "requested for the input being verified, with the locking-script elements after the last executed code separator and the declared value of the spent output; OP_CHECKSIG(VERIFY) accepts "
                       "exactly when the item minus its flag byte is valid DER, the key is a curve point and ECDSA verification holds over double-SHA256 of that preimage (not its byte-reversed digest), and "
                       "rejects when operands, locking script, value or input are missing; OP_CHECKMULTISIG(VERIFY) accepts exactly when the signatures match distinct keys in order (reference matching over the "
-                      "same verification predicate); the step removes exactly its operands (and the dummy) and pushes canonical true/false. NOT decided: whole-script runs (P2PKH assembled end to end is "
-                      "exercised only by the native replay suite), code separators inside conditionals (script_index bookkeeping across spliced branches), that real signatures verify (EC).")
+                      "same verification predicate); the step removes exactly its operands (and the dummy) and pushes canonical true/false. c15_separator_context decides over WHOLE RUNS (run_impl on unlocking ++ locking elements) which subscript reaches the sighash after executed "
+                      "conditionals, several separators and separators in branches that do not run; c15_separator_in_branch isolates the open known finding (separator executing inside a branch). "
+                      "NOT decided: end-to-end spends with real signatures (exercised only by the native replay suite), run shapes other than the ten listed, that real signatures verify (EC).")
 for _op in ("OP_CHECKSIG", "OP_CHECKSIGVERIFY"):
     OBLIGATIONS.append(M("C15", f"c15_{_op[3:].lower()}_step", {"q": "checksig", "part": "single", "ops": [_op]}, ["Interpreter::match_opcode (" + _op + ")", "checksig", "verify_tx_signature", "calculate_sighash_preimage", "SighashSignature::from_bytes_impl", "Signature / k256 from_der (predicate)", "Transaction::_verify", "ECDSA::verify_hashbuf_impl", "PublicKey::from_bytes_impl"],
                          "stack depth 0..3; signature item 0, 1, 9 or 74 bytes and key item 0, 33 or 65 bytes with symbolic content; flag bytes 0x01, 0x41, 0xc3, 0x40 and every non-flag byte (thorough: all 256); code-separator offset 0..4 over a 2-element unlocking and 3-element locking script; locking script / value / input present or absent; a signature item that is itself complete DER (no flag byte) is outside the bound", cost=6))
@@ -336,6 +337,12 @@ OBLIGATIONS.append(M("C15", "c15_preimage_legacy_k1x1", {"q": "legacy", "k_in": 
 for _op in ("OP_CHECKSIG", "OP_CHECKSIGVERIFY"):
     OBLIGATIONS.append(M("C15", f"c15_{_op[3:].lower()}_step_allflags", {"q": "checksig", "part": "single", "ops": [_op], "flags": None}, ["Interpreter::match_opcode (" + _op + ")", "checksig", "verify_tx_signature", "calculate_sighash_preimage", "SighashSignature::from_bytes_impl"],
                          "as the quick obligation with all 256 values of the flag byte (all fourteen SigHash values)", cost=20, tiers=("thorough",), timeout=5400))
+
+# whole runs with a spending context: which subscript reaches the sighash once conditionals / several separators have executed
+OBLIGATIONS.append(M("C15", "c15_separator_context", {"q": "checksig", "part": "context"}, ["Interpreter::run_impl", "Interpreter::next_impl", "Interpreter::match_script_bit (splice of executed branches)", "Interpreter::match_opcode (OP_CODESEPARATOR, OP_CHECKSIG, OP_CHECKSIGVERIFY, OP_CHECKMULTISIG)", "checksig", "multisig", "calculate_sighash_preimage"],
+                     "nine run shapes over a 9-byte signature item, a 33-byte key and a symbolic condition byte: no separator; one / two top-level separators; IF..ELSE..ENDIF, NOTIF (condition pushed by the unlocking script) and a nested IF executed BEFORE the separator; a separator in a branch that does not run; a conditional after the separator; 1-of-1 CHECKMULTISIG after a conditional and a separator. Decided: the subscript argument of sighash_preimage_impl (compared in serialisation order), input index, value. sighash / DER / point / ECDSA are accept-or-reject oracles", cost=2))
+OBLIGATIONS.append(M("C15", "c15_separator_in_branch", {"q": "checksig", "part": "context_inbranch"}, ["Interpreter::run_impl", "Interpreter::match_script_bit", "Interpreter::match_opcode (OP_CODESEPARATOR, OP_CHECKSIG)", "calculate_sighash_preimage"],
+                     "one run shape: OP_1 OP_IF OP_CODESEPARATOR OP_NOP OP_ENDIF <key> OP_CHECKSIG (the separator executes inside a branch; the reference subscript is the remaining serialisation OP_NOP OP_ENDIF <key> OP_CHECKSIG)", cost=1))
 
 OBLIGATIONS.append(M("C16", "c16_interp_tx_total", {"q": "interp_tx_total"}, ["Interpreter::from_transaction", "Interpreter::match_opcode (OP_CHECKSIG, OP_CHECKMULTISIG)", "checksig", "multisig", "calculate_sighash_preimage", "verify_tx_signature"],
                      "from_transaction: transactions with 0..2 inputs x every usize index; signature-opcode step: code-separator offset up to 3 beyond unlocking + locking script length (states reached through spliced conditional branches), OP_CHECKMULTISIG on stacks of 1..3 one-byte items with every declared count; sighash preimage, DER, point and ECDSA outcomes are accept-or-reject oracles", cost=1))
